@@ -413,6 +413,7 @@ def _untraced(fn):
 
 
 _CUR = [None]
+RENDER = [False]
 
 
 def cur():
@@ -548,8 +549,14 @@ def _m_dump(mf, f, sign_openpgp=None, openpgp_keyid=None, openpgp_env=None, sort
         return _REAL_DUMP(mf, f, sign_openpgp, openpgp_keyid, openpgp_env, sort)
     if sign_openpgp is None:
         sign_openpgp = mf.openpgp_signed
-    # the real dump does the sorting and renders every entry (to_list/join)
-    _REAL_DUMP(mf, f, sign_openpgp=False, sort=sort)
+    if RENDER[0]:
+        # the real dump does the sorting and renders every entry (to_list/join)
+        _REAL_DUMP(mf, f, sign_openpgp=False, sort=sort)
+    elif sort:
+        # rendering skipped (str() of symbolic sizes is expensive and nothing reads the
+        # text); the order is still produced by the entries' own __lt__ as in the real
+        # dump.  dump itself is decided on the real code in C08/C12/C14.
+        mf.entries = sorted(mf.entries)
     _snapshot(mf, f, sign_openpgp, openpgp_keyid)
 
 
